@@ -1,4 +1,5 @@
 import TaffyVerif.Drv.C02
+import TaffyVerif.Drv.EVAL
 import TaffyVerif.Drv.Pairs
 import TaffyVerif.Drv.C07
 import TaffyVerif.Drv.C19
@@ -13,6 +14,7 @@ import TaffyVerif.Drv.C15
 
 def handlers : List (String × Handler) := [
   ("C02", DrvC02.handler),
+  ("EVAL", DrvEVAL.handler),
   ("C04", DrvC04.handler),
   ("C05", DrvC05.handler),
   ("C06", DrvC06.handler),
